@@ -390,6 +390,9 @@ def cli_slice(acc):
     cases.append(("macro-recursion-twice", {"main.asm": ".macro m() { m()\n m() }\nm()"}, None))
     cases.append(("huge-loop", {"main.asm": ".loop 9223372036854775807 { }\n.loop 65536 { .loop 65536 { } }"}, None))
     cases.append(("deep-parens", {"main.asm": "lda " + "(" * 40 + "1\n.byte " + "m(" * 40 + "1"}, None))
+    # the import graphs once more with real files (the file system source resolves `.` and `..` itself)
+    for gi, g in enumerate(IMPORT_GRAPHS):
+        cases.append(("import-graph-%d" % gi, g, None))
     for name, files, extra in cases:
         toml = extra[5:] if isinstance(extra, str) and extra.startswith("toml:") else ""
         with TempProject(files, toml) as tp:
